@@ -252,6 +252,35 @@ func directedTuple(r *rec.Rand, s *scen.Scenario, probes []Probe) (scen.Tuple, b
 			obj = oid(td.Name, r.Intn(nIDs))
 		}
 		rd := td.Rels[r.Intn(len(td.Rels))]
+		if r.Chance(2, 5) {
+			// a link from the object: a userset grant (object#rel@group:g#member) or a tupleset tuple
+			// (object#parent@folder:f).  These are read through ReadUsersetTuples / Read, i.e. through
+			// the iterator caches (a direct grant is read with ReadUserTuple, which is never cached).
+			var links []scen.Restr
+			for _, rs := range rd.Restr {
+				if rs.Kind == scen.KSet || (rs.Kind == scen.KObj && rs.Type != "user") {
+					links = append(links, rs)
+				}
+			}
+			if len(links) == 0 {
+				continue
+			}
+			rs := links[r.Intn(len(links))]
+			_, id := scen.SplitObj(obj)
+			oi := int(id[len(id)-1] - '0')
+			ui := r.Intn(nIDs)
+			if rs.Type == td.Name {
+				if oi >= nIDs-1 {
+					continue
+				}
+				ui = oi + 1 + r.Intn(nIDs-1-oi)
+			}
+			t := scen.Tuple{Obj: obj, Rel: rd.Name, User: oid(rs.Type, ui)}
+			if rs.Kind == scen.KSet {
+				t.User += "#" + rs.Rel
+			}
+			return t, true
+		}
 		for _, rs := range rd.Restr {
 			if rs.Type == "user" && rs.Kind == scen.KObj {
 				t := scen.Tuple{Obj: obj, Rel: rd.Name, User: user}
@@ -819,8 +848,46 @@ func runCase(ctx context.Context, w *rec.Writer, p *Plan) {
 	w.Case(p, p.Cfg.bits(), rec.L(ops...))
 }
 
+// selfTest: a hand-made history on which every cache layer should serve a stale answer (diagnostic,
+// run with C10_SELFTEST=<cfg index>)
+func selfTest(ctx context.Context, cfgIdx int) {
+	ds := memory.New()
+	c := cfgOf(cfgIdx)
+	c.CtrlTTLms = 3600000
+	ref := newServer(ds, Cfg{V2: c.V2}, false)
+	tst := newServer(ds, c, true)
+	sc := template(2)
+	st, _ := ref.CreateStore(ctx, &openfgav1.CreateStoreRequest{Name: "c10-store"})
+	m := sc.ModelProto()
+	wm, err := ref.WriteAuthorizationModel(ctx, &openfgav1.WriteAuthorizationModelRequest{StoreId: st.GetId(),
+		TypeDefinitions: m.GetTypeDefinitions(), SchemaVersion: m.GetSchemaVersion(), Conditions: m.GetConditions()})
+	if err != nil {
+		panic(err)
+	}
+	T := &runner{srv: tst, store: st.GetId(), modelID: wm.GetAuthorizationModelId()}
+	link := scen.Tuple{Obj: "project:p0", Rel: "org", User: "org:o0"}
+	fmt.Println("write", T.write(ctx, []scen.Tuple{link, {Obj: "org:o0", Rel: "member", User: "user:u0"}}, nil))
+	pr := Probe{Obj: "project:p0", Rel: "member", User: "user:u0"}
+	lo := Probe{Type: "project", Rel: "member", User: "user:u0"}
+	for i := 0; i < 3; i++ {
+		fmt.Println("cached check", T.check(ctx, pr, 1), "cached list", T.listObjects(ctx, lo, 1))
+		time.Sleep(20 * time.Millisecond)
+	}
+	fmt.Println("delete", T.write(ctx, nil, []scen.Tuple{link}))
+	for i := 0; i < 3; i++ {
+		fmt.Println("cached check", T.check(ctx, pr, 1), "cached list", T.listObjects(ctx, lo, 1), "higher check", T.check(ctx, pr, 2), "higher list", T.listObjects(ctx, lo, 2))
+		time.Sleep(20 * time.Millisecond)
+	}
+}
+
 func main() {
 	o := rec.ParseFlags()
+	if v := os.Getenv("C10_SELFTEST"); v != "" {
+		var i int
+		fmt.Sscanf(v, "%d", &i)
+		selfTest(context.Background(), i)
+		return
+	}
 	w := rec.NewWriter(o.Out)
 	defer w.Close()
 	ctx := context.Background()
